@@ -68,15 +68,24 @@ def case_b64_roundtrip(data: bytes) -> dict:
 
 def case_b64_invalid(text: bytes) -> dict:
     """text contains a non-alphabet byte (not a trailing '=') or has length = 1 mod 4."""
-    from joserfc.util import urlsafe_b64decode
+    from joserfc.util import urlsafe_b64decode, json_b64decode
+    f = {}
+    # the same text where a header segment is expected: the codec's refusal (a ValueError) is what the caller gets
+    try:
+        r2 = json_b64decode(text)
+        f["C19:json-decode-accepts-invalid-base64url"] = f"json_b64decode({text!r}) returned {r2!r}"
+    except ValueError:
+        pass
+    except Exception as e:
+        f["C19:json-decode-invalid-wrong-exception"] = f"json_b64decode({text!r}) raised {type(e).__name__} instead of a ValueError"
     try:
         r = urlsafe_b64decode(text)
     except ValueError:
-        return {}
+        return f
     except Exception as e:
-        return {"C19:b64decode-invalid-wrong-exception":
+        return {**f, "C19:b64decode-invalid-wrong-exception":
                 f"decode({text!r}) raised {type(e).__name__} instead of a ValueError"}
-    return {"C19:b64decode-accepts-invalid": f"decode({text!r}) returned {r!r} instead of raising ValueError"}
+    return {**f, "C19:b64decode-accepts-invalid": f"decode({text!r}) returned {r!r} instead of raising ValueError"}
 
 
 def case_b64_valid_decode(text: bytes) -> dict:
